@@ -682,32 +682,32 @@ def mc_instances(name, tier):
         for P in ([[0, 4, 0], [0, 0, 4], [2, 0, 0]], [[0, 2, 2], [2, 0, 2], [0, 4, 0]]):
             fam.append({"N": 3, "K": 1, "nodes": [{"c": 1, "qcap": 0}, {"c": 1, "qcap": 0}, {"c": 1, "qcap": 1}],
                         "arrS": [[[1, 2]], [[]], [[2]]], "svcS": [[[1, 2]], [[1]], [[2]]],
-                        "route": [tm(P)], "T": 6 if not big else 8})
-        return [(fam, 4 if not big else 5)]
+                        "route": [tm(P)], "T": 8 if not big else 10})
+        return [(fam, 5 if not big else 6)]
     if name == "prio":
         fam = []
         for disc in ["FIFO", "LIFO", "SIRO"]:
             for c in [1, 2]:
                 fam.append({"N": 1, "K": 2, "prio": [0, 1], "nodes": [{"c": c, "disc": disc}],
                             "arrS": [[[1, 2], [1]]], "svcS": [[[1, 3], [2]]],
-                            "route": [tm([[0]]), tm([[0]])], "T": 6 if not big else 8})
-        return [(fam, 4 if not big else 5)]
+                            "route": [tm([[0]]), tm([[0]])], "T": 9 if not big else 11})
+        return [(fam, 6 if not big else 7)]
     if name == "preempt":
         fam = []
         for pp in [1, 2, 3]:
             for c in [1, 2]:
                 fam.append({"N": 1, "K": 2, "prio": [0, 1], "nodes": [{"c": c, "pp": pp}],
                             "arrS": [[[2, 3], [1]]], "svcS": [[[1, 2], [2, 3]]],
-                            "route": [tm([[0]]), tm([[0]])], "T": 6 if not big else 8})
-        return [(fam, 4 if not big else 5)]
+                            "route": [tm([[0]]), tm([[0]])], "T": 9 if not big else 11})
+        return [(fam, 6 if not big else 7)]
     if name == "cls":
         fam = []
         for prio in ([0, 0], [0, 1]):
             fam.append({"N": 2, "K": 2, "prio": prio,
                         "nodes": [{"c": 1, "qcap": 1, "ccm": [[2, 2], [0, 4]]}, {"c": 1, "qcap": 0, "ccm": [[4, 0], [4, 0]]}],
                         "arrS": [[[1, 2], []], [[], []]], "svcS": [[[1], [2]], [[1], [2]]],
-                        "route": [tm([[0, 4], [0, 0]]), tm([[0, 2], [2, 0]])], "T": 6 if not big else 8})
-        return [(fam, 4 if not big else 5)]
+                        "route": [tm([[0, 4], [0, 0]]), tm([[0, 2], [2, 0]])], "T": 7 if not big else 9})
+        return [(fam, 5 if not big else 6)]
     if name == "renege":
         fam = []
         for c in [1, 2]:
@@ -747,8 +747,8 @@ def mc_instances(name, tier):
                 fam.append({"N": 1, "K": 2, "prio": [0, 1],
                             "nodes": [{"kind": "sched", "c": 0, "sched": {"nums": nums, "ends": ends, "pre": pre, "off": 0}}],
                             "arrS": [[[1, 2], [2]]], "svcS": [[[2, 3], [3]]], "route": [tm([[0]]), tm([[0]])],
-                            "T": 8 if not big else 11})
-        return [(fam, 4 if not big else 5)]
+                            "T": 11 if not big else 14})
+        return [(fam, 5 if not big else 6)]
     if name == "slot":
         fam = []
         for cap, pre in [(False, 0), (True, 0), (True, 1), (True, 3)]:
@@ -762,14 +762,14 @@ def mc_instances(name, tier):
         for prio, pp in [([0, 0], 0), ([1, 0], 0), ([1, 0], 1), ([1, 0], 3)]:
             fam.append({"N": 1, "K": 2, "prio": prio, "nodes": [{"c": 1, "pp": pp}],
                         "arrS": [[[1, 2], [2]]], "svcS": [[[2, 3], [1]]], "cct": [[[], [1, 2]], [[], []]],
-                        "route": [tm([[0]]), tm([[0]])], "T": 7 if not big else 9})
-        return [(fam, 4 if not big else 5)]
+                        "route": [tm([[0]]), tm([[0]])], "T": 9 if not big else 11})
+        return [(fam, 5 if not big else 6)]
     if name == "ps":
         fam = []
         for cap, R in [(1, 1), (2, 1), (INF, 1), (2, 2), (3, 2)]:
             fam.append({"N": 1, "K": 1, "nodes": [{"kind": "ps", "c": cap, "psR": R}],
-                        "arrS": [[[6, 12]]], "svcS": [[[12, 24]]], "route": [tm([[0]])], "T": 60 if not big else 84})
-        return [(fam, 4 if not big else 5)]
+                        "arrS": [[[6, 12]]], "svcS": [[[12, 24]]], "route": [tm([[0]])], "T": 84 if not big else 108})
+        return [(fam, 5 if not big else 6)]
     if name == "exact":
         out = []
         for base in ("tandem", "sched", "renege"):
